@@ -90,12 +90,12 @@ func (k *KDC) serveTCP() {
 				if want < 0 && len(buf) >= 4 {
 					want = 4 + int(uint32(buf[0])<<24|uint32(buf[1])<<16|uint32(buf[2])<<8|uint32(buf[3]))
 				}
-				if (want >= 0 && len(buf) >= want) || err != nil {
+				if (want >= 0 && len(buf) >= want) || err != nil || (k.Behaviour == "reply-at-once" && len(buf) > 0) {
 					break
 				}
 			}
 			switch k.Behaviour {
-			case "reply", "reply-keep-open":
+			case "reply", "reply-keep-open", "reply-at-once":
 				c.Write(k.Reply)
 				if k.Behaviour == "reply-keep-open" {
 					io.Copy(io.Discard, c) // until the proxy closes
